@@ -1,6 +1,6 @@
 (* C14 — user classes are constructed once with exactly the grammar attributes, and are left
    exactly as they were after loading, successful or not. *)
-From TxV Require Import Core.Base Gen.SrcUserCls Model.UserCls Proofs.UserClsProofs Proofs.UserClsSrcProofs.
+From TxV Require Import Core.Base Gen.SrcUserCls Model.UserCls Proofs.UserClsProofs Proofs.UserClsLogProofs Proofs.UserClsSrcProofs.
 
 (* Restoration, for EVERY history of the load machine: any sequence of operations (any mix of
    main loads, imported models, loads started from callbacks while another load runs, and a
@@ -30,24 +30,37 @@ Proof. exact src_roundtrip. Qed.
 Print Assumptions C14_methods_roundtrip.
 
 (* __init__ receives exactly the collected attributes that are meta-attributes of the class,
-   plus `parent` *)
+   plus `parent` (the extra key of the source) *)
 Theorem C14_init_args : forall (V : Type) tx_attrs (attrs : list (list N * V)) kv,
   In kv (init_kwargs tx_attrs attrs) <-> In kv attrs /\ (In (fst kv) tx_attrs \/ fst kv = init_extra_key).
-Proof. intros. rewrite src_parent_key. apply init_kwargs_spec. Qed.
+Proof. exact src_init_args. Qed.
 Print Assumptions C14_init_args.
 
-(* ... and for the storage the loader fills (every meta-attribute initialised, positions, parent
-   iff contained): the rule's attributes in order, plus parent iff contained *)
+(* ... and for the storage the loader fills (every meta-attribute initialised, the two position
+   attributes, parent iff the object is contained): the rule's attributes in order, plus parent
+   iff contained *)
 Theorem C14_init_args_of_loaded_object : forall (V : Type) tx_attrs (vals : list (list N * V)) pos pos_end parent,
   (forall kv, In kv vals -> In (fst kv) tx_attrs) ->
   ~ In tx_pos_key tx_attrs -> ~ In tx_pos_end_key tx_attrs ->
   init_kwargs tx_attrs (collected vals pos pos_end parent)
-  = vals ++ match parent with Some p => [(parent_key, p)] | None => [] end.
-Proof. intros V. exact (@init_kwargs_collected V). Qed.
+  = vals ++ match parent with Some p => [(init_extra_key, p)] | None => [] end.
+Proof. exact src_init_args_collected. Qed.
 Print Assumptions C14_init_args_of_loaded_object.
 
-(* non-vacuity: a main model with an imported model, an unknown reference (Fail), then a
-   successful load; idle at the end *)
+(* In every running load of every history: whenever an __init__ event was recorded, the
+   resolution of all references of the load had been recorded before it and no object processor
+   of the load before it (the trace is newest first). *)
+Theorem C14_init_after_resolution_before_processors : forall d0 ops c,
+  In c (s_ctxs (run replace_names restore_names (init d0) ops)) -> trace_ok (c_trace c).
+Proof. exact src_init_order. Qed.
+Print Assumptions C14_init_after_resolution_before_processors.
+
+(* PARTIAL (C14_init_once): "each user object is initialised exactly once in a successful load,
+   at most once otherwise" is checked on the implementation by the property oracle on every
+   scenario and is visible in the model (Init pops the head of the pending list; object ids come
+   from a counter), but the NoDup invariant over the pending lists is not proved here. *)
+
+(* non-vacuity: a main model with an imported model and a failure, then a successful load *)
 Example C14_nonvacuous :
   let ops := [Begin true false true; Alloc; Alloc; Complete; Complete; Begin false false true; Alloc; Complete; Fail;
               Begin true false true; Alloc; Complete; ResolveOk; EndModel; Init true; Proc true; Finish] in
@@ -57,3 +70,12 @@ Example C14_nonvacuous :
   length (k_store (s_cls (run replace_names restore_names (init (fun _ => UserFn 7)) (firstn 8 ops)))) = 3.
 Proof. vm_compute. repeat split; reflexivity. Qed.
 Print Assumptions C14_nonvacuous.
+
+(* non-vacuity of the order statement: a running load whose trace holds resolution, __init__ and
+   a processor event *)
+Example C14_order_nonvacuous :
+  let s := run replace_names restore_names (init (fun _ => Absent))
+             [Begin true false true; Alloc; Complete; ResolveOk; EndModel; Init true; Proc true] in
+  exists c, In c (s_ctxs s) /\ map is_init (c_trace c) = [false; true; false; false].
+Proof. eexists. split; [left; reflexivity | vm_compute; reflexivity]. Qed.
+Print Assumptions C14_order_nonvacuous.
